@@ -15,6 +15,8 @@ def gen_par(rng, typed=False):
     ustar = float(rng.uniform(0.1, 0.8))
     x = float(rng.choice([-10 ** rng.uniform(-2.5, 0.2), 10 ** rng.uniform(-2.5, 0.0)]))
     L = float(zm / x)
+    if rng.random() < 0.08:
+        L = float(rng.choice([np.inf, -np.inf]))     # exactly neutral stratification given as an infinite Obukhov length
     # wind speed consistent with the diabatic log law (positive U)
     from bldfm.pbl_model import psi
     ws = float(ustar / 0.4 * (np.log(zm / z0) + float(psi(zm / L))) * rng.uniform(0.8, 1.25))
